@@ -11,3 +11,5 @@ import ColaVerif.Lemmas.KronSum
 import ColaVerif.Lemmas.SmallKernels
 import ColaVerif.Lemmas.OpMatmat
 import ColaVerif.Properties.C01
+import ColaVerif.Model.Expr
+import ColaVerif.DriverLib
